@@ -329,7 +329,12 @@ def _gen_type(rng, names_abs, names_conc, depth, profile, siblings):
         return ["list", inner]
     if r < 0.84:  # tuple
         n = rng.choice([1, 2, 2, 3]) if not finite else 2
-        return ["tuple"] + [_gen_type(rng, names_abs, names_conc, depth + 1, profile, []) for _ in range(n)]
+        members = [_gen_type(rng, names_abs, names_conc, depth + 1, profile, []) for _ in range(n)]
+        # the same member type more than once (tuple[int, int], tuple[A, bool, A]); decided from the members themselves so
+        # that the main stream of the generator is not shifted
+        if n <= 2 and pyrandom.Random(repr(members)).random() < 0.4:
+            members.append(members[0])
+        return ["tuple"] + members
     if r < 0.92 and len(refs) >= 2:  # union of productions / of refined ints
         if rng.random() < 0.7:
             ks = rng.sample(refs, 2)
@@ -438,6 +443,8 @@ FIXED = [
             {"name": "Lit", "parent": "Root", "fields": [["v", ["ann", ["int"], ["IntRange", 3, 9]]]]},
             {"name": "B", "parent": "Root", "fields": [["b", ["bool"]]]},
             {"name": "Tu", "parent": "Root", "fields": [["t", ["tuple", ["int"], ["bool"]]]]},
+            {"name": "Tu2", "parent": "Root", "fields": [["t", ["tuple", ["int"], ["int"]]]]},
+            {"name": "Tu3", "parent": "Root", "fields": [["t", ["tuple", ["ref", "Root"], ["bool"], ["ref", "Root"]]]]},
             {"name": "U", "parent": "Root", "fields": [["u", ["union", ["ref", "Plus"], ["ref", "Leaf"]]]]},
             {"name": "Plus", "parent": "Root", "fields": [["l", ["ref", "Root"]], ["r", ["ref", "Root"]]]},
             {"name": "L", "parent": "Root", "fields": [["items", ["list", ["ref", "Root"]]]]},
